@@ -152,6 +152,9 @@ def step (line : String) : String :=
              s!"0:{p.uncompressedLen}:{p.compressedLen}:{p.numValues};0;3;3;{showStatsFields p.stats}"
            if hs.isEmpty then "-" else ",".intercalate hs)
     | _, _ => "bad-op"
+  | ["parse-struct", typ, decls] =>
+    let priv := if PQ.Gen.Facts.exportedTest = "IsExported" then Parse.isPrivateUpper else Parse.isPrivateAZ
+    "ok {" ++ ",".intercalate ((Parse.parseStruct priv (parseDecls decls) typ).map Parse.showField) ++ "}"
   | ["pack", w, g] =>
     match w.toNat? with
     | some w => toHex (pack w (unhex g))
